@@ -226,7 +226,9 @@ def run(ctx):
                     [('close-before-connect-hangs-%d' % n, (lambda n=n: tg.close_before_connect_hangs(ctx, rng, 'C02', n))) for n in (0,)] +
                     [('eof-meets-connect-%d' % n, (lambda n=n: tg.eof_meets_connect(ctx, rng, 'C02', n))) for n in (1, 3000)] +
                     [('connect-with-followers-%d-%d' % (n, k), (lambda n=n, k=k: tg.connect_with_followers(ctx, rng, 'C02', n, k)))
-                     for n, k in ((0, 1), (300, 1), (0, 3), (5000, 2))]):
+                     for n, k in ((0, 1), (300, 1), (0, 3), (5000, 2))] +
+                    [('finish-in-one-pass-%d-%s' % (n, e_), (lambda n=n, e_=e_: tg.flows_finish_in_one_pass(ctx, rng, 'C02', n, e_)))
+                     for n, e_ in ((2, 'c'), (2, 's'), (3, 'c'), (5, 's'))]):
         ins, outs = fn()
         all_in.append(ins)
         all_out.append(outs)
